@@ -19,9 +19,13 @@ PROGRAMS = {
     "swapOtherB": [("swap", "BAR", "b"), ("read", "FOO"), ("read", "BAR"), ("exit",), ("read", "BAR")],
     "setBar": [("set", "BAR", "n"), ("read", "BAR"), ("read", "BAR")],
     "inherit": [("swap", "FOO", "a"), ("spawn-inherit", "FOO"), ("exit",), ("read", "FOO")],
+    # what ProcProxyThread/PopenThread do: the overrides are captured when the helper thread is CREATED
+    # and installed when its run() gets scheduled; scopes the parent enters in between must not leak
+    "inherit-async": [("spawn-async", "FOO"), ("swap", "FOO", "a"), ("read", "FOO"), ("exit",), ("join-async",)],
+    "inherit-async-masked": [("swap", "BAR", "b"), ("spawn-async", "BAR"), ("exit",), ("swap", "BAR", "<DEL>"), ("read", "BAR"), ("exit",), ("join-async",)],
 }
-PAIRS_QUICK = [("swapA", "observer"), ("swapA", "swapB"), ("swapA", "overlayB"), ("swapA", "maskB"), ("swapA", "swapOtherB"), ("swapA", "setBar")]
-PAIRS_THOROUGH = PAIRS_QUICK + [("overlayB", "observer"), ("maskB", "observer"), ("overlayB", "maskB"), ("inherit", "observer"), ("inherit", "swapB"), ("swapOtherB", "setBar")]
+PAIRS_QUICK = [("inherit-async", "observer"), ("swapA", "observer"), ("swapA", "swapB"), ("swapA", "overlayB"), ("swapA", "maskB"), ("swapA", "swapOtherB"), ("swapA", "setBar")]
+PAIRS_THOROUGH = PAIRS_QUICK + [("inherit-async-masked", "observer"), ("inherit-async", "swapB"), ("overlayB", "observer"), ("maskB", "observer"), ("overlayB", "maskB"), ("inherit", "observer"), ("inherit", "swapB"), ("swapOtherB", "setBar")]
 
 _PAIR = None
 
@@ -41,6 +45,10 @@ def _traced():
         E.InternalEnvironDict.__setitem__,
         E.InternalEnvironDict.set_locally,
         E.InternalEnvironDict.del_locally,
+        E.InternalEnvironDict.get_local_overrides,
+        E.InternalEnvironDict.set_local_overrides,
+        E.Env.get_swapped_values,
+        E.Env.set_swapped_values,
     ]
     for name in ("_restore_after_swap",):
         if hasattr(E.Env, name):
@@ -58,6 +66,7 @@ def _read(env, key):
 
 def _run_program(env, prog, log, DELETE_VAR):
     cms = []
+    asyncs = []
     for op in prog:
         if op[0] in ("swap", "overlay"):
             v = DELETE_VAR if op[2] == "<DEL>" else op[2]
@@ -70,6 +79,21 @@ def _run_program(env, prog, log, DELETE_VAR):
             log.append((op[1], len(cms) > 0, _read(env, op[1])))
         elif op[0] == "set":
             env[op[1]] = op[2]
+        elif op[0] == "spawn-async":
+            sv = env.get_swapped_values()  # captured at creation, like ProcProxyThread.__init__
+            sub = []
+
+            def child(sv=sv, key=op[1], sub=sub):
+                env.set_swapped_values(sv)  # installed when run() is scheduled
+                sub.append(_read(env, key))
+
+            t = threading.Thread(target=child)
+            t.start()
+            asyncs.append((op[1], t, sub, len(cms) > 0))
+        elif op[0] == "join-async":
+            for key, t, sub, inscope in asyncs:
+                t.join()
+                log.append((key, "inherited-at-creation", sub[0]))
         elif op[0] == "spawn-inherit":
             # what ProcProxyThread/PopenThread do: hand the swapped values to a helper thread
             sv = env.get_swapped_values()
@@ -94,7 +118,20 @@ def _expected(prog, other_prog):
             base[op[1]] = base[op[1]] | {op[2]}
     scopes = []
     out = []
+    pending = []
     for op in prog:
+        if op[0] == "spawn-async":
+            k = op[1]
+            vals = None
+            for sk, sv in reversed(scopes):
+                if sk == k:
+                    vals = {ABSENT if sv == "<DEL>" else sv}
+                    break
+            pending.append((k, vals if vals is not None else set(base[k])))
+            continue
+        if op[0] == "join-async":
+            out.extend(pending)
+            continue
         if op[0] in ("swap", "overlay"):
             scopes.append((op[1], op[2]))
         elif op[0] == "exit":
@@ -167,7 +204,7 @@ def run_part(ctx):
     traced = _traced()
     if not ctx.thorough:
         # quick tier: scheduling points only on lines that touch state shared between threads
-        traced = pysched.shared_lines(traced, [r"_detyped", r"self\._d\b", r"_overlay_stack", r"_local\b", r"_global\b", r"_thread_local", r"os_environ", r"\byield\b", r"set_locally|del_locally"])
+        traced = pysched.shared_lines(traced, [r"_detyped", r"self\._d\b", r"_overlay_stack", r"_local\b", r"_global\b", r"_thread_local", r"os_environ", r"\byield\b", r"set_locally|del_locally", r"local_overrides|swapped_values|new_local|\.copy\(\)|local\.(clear|update)"])
     total = {"executions": 0, "steps": 0, "sigs": set(), "capped": None}
     per_pair = {}
     for pair in pairs:
